@@ -294,3 +294,102 @@ Example unknown_site_is_live :
   snd (choose null_orc [] ghost_story e 0) = Exc ValueError /\
   snd (choose_g null_orc [] ghost_story (raise OtherError) e 0) = Exc OtherError.
 Proof. vm_compute. split; reflexivity. Qed.
+
+(* =========================================================================================== *)
+(* The compiled story as JSON data and as JSON text (Story/StoryJson.v) *)
+(* =========================================================================================== *)
+From Coq Require Import String Ascii List Bool ZArith.
+From Bardic Require Import PyStr Value Compiled Codec JsonText JsonTextProofs Engine EngineCheck StoryJson StoryJsonProofs.
+Module StoryAsJson.
+
+(* ---- C12: the compiled story as JSON data (Story/StoryJson.v, Proofs/StoryJsonProofs.v) ---- *)
+Import ListNotations.
+Local Open Scope string_scope.
+Local Open Scope list_scope.
+
+
+(* ---- the compiled story is plain JSON data and survives the JSON round trip ---- *)
+
+(* the strict reader inverts the writer on EVERY dict AST, at any nesting depth: the dict the compiler returns
+   (jstory_to_json js - the tie checks inside Coq that this IS the real dict, key for key) determines js *)
+Theorem compiled_dict_reader_inverts_writer : forall js, jstory_of_json (jstory_to_json js) = Some js.
+Proof. exact jstory_rt. Qed.
+Print Assumptions compiled_dict_reader_inverts_writer.
+
+Theorem story_json_roundtrip : forall st, story_of_json (story_to_json st) = Some st.
+Proof. exact StoryJsonProofs.story_json_roundtrip. Qed.
+Print Assumptions story_json_roundtrip.
+
+(* a Python dict has pairwise distinct keys: jstory_kdb / story_kdb say so of the AST (passage keys, metadata keys,
+   @input attribute names incl. "type", passage extras); all fixed member names are distinct by construction *)
+Theorem compiled_dict_keys_distinct : forall js, jstory_kdb js = true -> keys_distinct (jstory_to_json js).
+Proof. exact jstory_kd. Qed.
+Print Assumptions compiled_dict_keys_distinct.
+
+Theorem story_json_keys_distinct : forall st, story_kdb st = true -> keys_distinct (story_to_json st).
+Proof. exact StoryJsonProofs.story_json_keys_distinct. Qed.
+Print Assumptions story_json_keys_distinct.
+
+(* json.loads(json.dumps(d, indent=2)) = d for the dict of every compiled story, and the reader gets the AST back *)
+Theorem compiled_dict_survives_json_text : forall js, jstory_kdb js = true ->
+  loads (dumps_indent2 (jstory_to_json js)) = Some (jstory_to_json js) /\
+  jstory_of_json (jstory_to_json js) = Some js /\
+  story_of_json (jstory_to_json js) = Some (forget js).
+Proof. exact compiled_dict_file_reads_back. Qed.
+Print Assumptions compiled_dict_survives_json_text.
+
+(* what the tie evaluates on the real dict is sound for the hypothesis of the text theorems *)
+Theorem json_kdb_sound : forall j, json_kdb j = true -> keys_distinct j.
+Proof. exact StoryJsonProofs.json_kdb_sound. Qed.
+Print Assumptions json_kdb_sound.
+
+(* non-vacuity: a story with every token kind, nesting, a @join choice with a block, an @input *)
+Definition sj_demo : story :=
+  mkStory "Start"
+    [("Start", mkPassage "Start" [] 
+        [TText "Hi "; TExpr "hp:>3"; TInlineCond "hp > 0" [TText "alive"] [TExpr "name"; TText "\"];
+         TCond [Branch "hp > 1" [TText "a"; TLoop "i" "xs" [TExpr "i"; TJump "End" "i"] [Choice [TText "in loop"] "End" "i" None true 0 [] []]] [];
+                Branch "True" [] [Choice [TText "c"] "End" "1" (Some "hp") false 0 ["T"] []]];
+         TRender "card" "x=1" None; TRender "card" "" (Some "react"); TInput [("name", "who"); ("label", "Who")];
+         TJoinMarker 0; TText "after"]
+        [Choice [TText "go "; TExpr "n"] "@join" "" None true 0 [] [TText "block"; TPyStmt "hp = 2"];
+         Choice [TText "end"] "End" "hp, 2" (Some "hp > 0") false 1 ["BOLD"] []]
+        [TPyStmt "hp = 5"; TPyBlock "xs = [1]
+name = 'n'"; THook true "turn_end" "End"; THook false "turn_end" "End"]
+        ["intro"] [[("name", "who"); ("label", "Who")]]);
+     ("End", mkPassage "End" [mkParam "x" None; mkParam "y" (Some "2")] [TText "bye"] [] [] [] [])]
+    ["import math"] [("title", "Demo"); ("version", "1")].
+
+Example sj_demo_is_dict : story_kdb sj_demo = true.
+Proof. vm_compute. reflexivity. Qed.
+Example sj_demo_roundtrip : story_of_json (story_to_json sj_demo) = Some sj_demo.
+Proof. vm_compute. reflexivity. Qed.
+Example sj_demo_file : loads (dumps_indent2 (story_to_json sj_demo)) = Some (story_to_json sj_demo).
+Proof. vm_compute. reflexivity. Qed.
+(* what the dict looks like (compact json.dumps of a one-passage story) *)
+Example sj_tiny_text :
+  dumps (story_to_json (mkStory "S" [("S", mkPassage "S" [] [TText "x"] [Choice [TText "go"] "S" "" None true 0 [] []] [] [] [])] [] [])) =
+  "{""version"": ""0.1.0"", ""initial_passage"": ""S"", ""metadata"": {}, ""imports"": [], ""passages"": {""S"": {""id"": ""S"", ""params"": [], ""content"": [{""type"": ""text"", ""value"": ""x""}], ""choices"": [{""text"": [{""type"": ""text"", ""value"": ""go""}], ""target"": ""S"", ""args"": """", ""condition"": null, ""sticky"": true, ""tags"": [], ""section"": 0}], ""execute"": [], ""tags"": []}}}".
+Proof. vm_compute. reflexivity. Qed.
+(* the members the engine view forgets are part of the dict AST: a tagged text token, a section-less choice, extras *)
+Example sj_real_shape :
+  let js := mkJStory "0.1.0" (Some "S") [] []
+      [("S", mkJPassage "S" [] [JTText "x" (Some ["T"]); JTCond [JBranch "c" [] (Some [JChoice [] "S" "" None true [] None None (Some [JTPyStmt "a = 1"])])]] [] [] []
+                        [PXInputs [[("name", "n")]]; PXSection 1; PXJoinCount 1])] in
+  jstory_kdb js = true /\ jstory_of_json (jstory_to_json js) = Some js /\
+  loads (dumps_indent2 (jstory_to_json js)) = Some (jstory_to_json js) /\
+  story_to_json (forget js) <> jstory_to_json js.
+Proof. vm_compute. repeat split. discriminate. Qed.
+(* the hypothesis is needed: an AST with a repeated passage key is not a Python dict, and its text does not read back *)
+Example sj_not_a_dict :
+  let st := mkStory "S" [("S", mkPassage "S" [] [] [] [] [] []); ("S", mkPassage "S" [] [TText "2"] [] [] [] [])] [] [] in
+  story_kdb st = false /\ loads (dumps_indent2 (story_to_json st)) <> Some (story_to_json st).
+Proof. vm_compute. split; [reflexivity|discriminate]. Qed.
+(* the strict reader is a schema check: another member order, an unknown kind, an extra member are rejected *)
+Example sj_reader_strict :
+  tok_of_json (JObj [("value", JStr "x"); ("type", JStr "text")]) = None /\
+  tok_of_json (JObj [("type", JStr "texty"); ("value", JStr "x")]) = None /\
+  tok_of_json (JObj [("type", JStr "text"); ("value", JStr "x"); ("more", JNull)]) = None /\
+  tok_of_json (JObj [("type", JStr "text"); ("value", JStr "x")]) = Some (JTText "x" None).
+Proof. vm_compute. repeat split. Qed.
+End StoryAsJson.
